@@ -134,6 +134,7 @@ pub struct Snapshot {
     pub user_queue_ids: Vec<u64>,
     pub resubmit_queue_ids: Vec<u64>,
     pub high_priority_queue_ids: Vec<u64>,
+    pub allocated_packet_id_list: Vec<u16>,
 }
 
 /* ------------------------------------------------------------------------------------------ */
@@ -360,6 +361,7 @@ impl Engine {
             user_queue_ids: state.user_operation_queue.iter().copied().collect(),
             resubmit_queue_ids: state.resubmit_operation_queue.iter().copied().collect(),
             high_priority_queue_ids: state.high_priority_operation_queue.iter().copied().collect(),
+            allocated_packet_id_list: state.allocated_packet_ids.keys().copied().collect(),
         }
     }
 }
